@@ -62,6 +62,58 @@ def reserved_list(f, crate):
     return c, out
 
 
+def rule_namespace_nesting(chk):
+    """Where a definition is declared: generate_root_definitions of both exporters read on a model module whose
+    namespaces are A, A::B, A::B::C (the definition printer is a stand-in). A definition that lives in A::B::C is
+    emitted inside `namespace A { namespace B { namespace C {` - outermost first - because every reference to it is
+    written A::B::C::name; one in the root namespace is emitted bare."""
+    import interp as I
+    f = chk.facts
+    opt = lambda v: I.Enum("Option", "None") if v is None else I.Enum("Option", "Some", {"0": v})
+    ns = lambda n_: I.Enum("NamespaceId", None, {"0": n_})
+    NAMES = {1: "A", 2: "B", 3: "C"}
+    PARENT = {1: None, 2: 1, 3: 2}
+
+    def deref(v):
+        return v.get() if isinstance(v, I.Ref) else v
+    for tgt, crate in (("hlsl", "rssl_hlsl"), ("msl", "rssl_msl")):
+        fn = f.fn("generate_root_definitions", crate)
+        if not fn:
+            chk.note("C15.namespaces/%s: generate_root_definitions not found; not decided" % tgt)
+            continue
+        bad = None
+        unread = None
+        for where_, chain in ((None, []), (1, ["A"]), (2, ["A", "B"]), (3, ["A", "B", "C"])):
+            ext = {"generate_root_definition": lambda a, w=where_: I.Enum("Result", "Ok", {"0": (opt(None if w is None else ns(w)), [I.Enum("RootDefinition", "Tagged", {"tag": "def"})])}),
+                   "NamespaceRegistry::get_namespace_name": lambda a: NAMES[deref(a[1]).fields["0"]],
+                   "NamespaceRegistry::get_namespace_parent": lambda a: opt(None if PARENT[deref(a[1]).fields["0"]] is None else ns(PARENT[deref(a[1]).fields["0"]]))}
+            module = I.Enum("Module", None, {"namespace_registry": I.Opaque("namespace registry")})
+            ctx = I.Enum("GenerateContext", None, {"module": module})
+            out = []
+            try:
+                r = I.Interp(f, max_depth=6, extern=ext).apply(fn, [module, [I.Opaque("root definition")], out, ctx])
+            except I.Unknown as e:
+                if "panicking" in str(e):
+                    bad = bad or "generate_root_definitions aborts for a definition in %s (%s)" % ("::".join(chain) or "the root namespace", str(e)[:60])
+                else:
+                    unread = str(e)[:100]
+                continue
+            got = []
+            cur = out
+            while len(cur) == 1 and isinstance(cur[0], I.Enum) and cur[0].variant == "Namespace":
+                nm = cur[0].fields.get("0")
+                got.append(nm.fields["node"] if isinstance(nm, I.Enum) else nm)
+                cur = cur[0].fields.get("1")
+            leaf = len(cur) == 1 and isinstance(cur[0], I.Enum) and cur[0].variant == "Tagged"
+            if (got != chain or not leaf) and bad is None:
+                bad = "a definition of namespace %s is emitted inside %s%s: references to it are written %s::name and find nothing (or another entity)" % (
+                    "::".join(chain) or "(root)", " { ".join("namespace " + g for g in got) or "no namespace", "" if leaf else " (and not as one definition)", "::".join(chain))
+        if unread and not bad:
+            chk.unreadable("C15.namespaces/" + tgt, "generate_root_definitions on a model namespace tree", unread, where(fn))
+        else:
+            chk.ob("C15.namespaces/" + tgt, bad is None, bad or "definitions are wrapped in their namespaces outermost first (depth 0-3)", where(fn), sample={"target": tgt})
+
+
 def rule_struct_member_names(chk):
     """Struct members are emitted under their source names (no name map stands between them), and a derived struct is
     emitted flattened with its base's members: the type checker's duplicate check is all that keeps two members of one
@@ -150,6 +202,7 @@ def run(chk):
     rule_raw_names(chk)
     rule_leaf_identifiers(chk)
     rule_struct_member_names(chk)
+    rule_namespace_nesting(chk)
 
 
 def rule_builtins(chk, res):
